@@ -83,6 +83,8 @@ def _ent(rng, rel, isdir):
         e["in_exc"] = True
     if rng.random() < 0.04:
         e["in_req"] = e["in_exc"] = True           # never produced by the code; the model must still agree
+    if not isdir and rng.random() < 0.06:
+        e["rnopath"] = True                        # the event carried no path and nothing has filled it in yet (finding S-1)
     return e
 
 
@@ -116,7 +118,7 @@ class RealTable:
             roid, rhash = "r%d" % i, b"rh%d" % i
             if r["robj"] == "live" and world.raw[1]["info_path"](rabs) is None:
                 roid, rhash = self._make(1, rabs, r["isdir"], content)
-            st.update(REMOTE, otype, roid, path=rabs, hash=rhash, exists=True)
+            st.update(REMOTE, otype, roid, path=None if r.get("rnopath") else rabs, hash=rhash, exists=True)
             ent = st.lookup_oid(REMOTE, roid)
             lhash = None
             if r["lobj"]:
@@ -309,7 +311,7 @@ def run_table(case, model):
             # by path the real call addresses every non-discarded entry at the path; the model is per entry
             at_path = [k for k, x in enumerate(t.ents) if case["ents"][k]["rel"] == r["rel"]
                        and case["ents"][k]["ignored"] == "none"]
-            if how != "oid" and at_path != [i]:
+            if how != "oid" and (at_path != [i] or r.get("rnopath")):
                 stats["skipped"] = "path addresses %d entries" % len(at_path)
                 return True, None, None, stats
             if op[0] == "request":
